@@ -186,6 +186,15 @@ class Ctx:
 
     def choose(self, options):
         """options: list of (label, condition or None). Picks per decision prefix among the feasible ones; registers siblings."""
+        d = len(self.taken)
+        if d < len(self.decisions):
+            # replaying a recorded prefix: this alternative was found feasible when it was registered
+            pick = self.decisions[d]
+            self.taken.append(pick)
+            lab, cond = options[pick]
+            if cond is not None:
+                self.assume(cond)
+            return pick
         feas = []
         for i, (lab, cond) in enumerate(options):
             if cond is None:
@@ -399,6 +408,8 @@ class Exec:
             return IntV(bv(int(m.group(1).replace("_", "")), w), sg)
         if c.startswith('"') or c.startswith("b\""):
             return Opaque("str:" + c)
+        if c.startswith("ZeroSized:"):
+            return Agg([], "ZeroSized")
         if "promoted[" in c:
             # promoted constants in the bodies we execute are empty arrays / slices (`&[]`)
             return Slice(Buffer(bv(0), "zeros", label="promoted"), bv(0), bv(0))
@@ -713,8 +724,12 @@ class Exec:
         key = mir.callee_key(callee)
         fn = prog.find(key)
         if fn is None and key[0] == "Self":
-            # trait default method called on Self: resolve through the caller's impl type
-            fn = prog.find((fr.fn.key[0], key[1]))
+            # trait default method called on Self: resolve through the concrete Self of the enclosing call
+            st = getattr(self, "self_ty", None)
+            if st:
+                fn = prog.find((st, key[1]))
+            if fn is None:
+                fn = prog.find((fr.fn.key[0], key[1]))
         if fn is None:
             # trait default method (e.g. ParseAt::validate_entsize): definition keyed by trait name
             for (ty, meth), lst in prog.by_key.items():
